@@ -22,13 +22,16 @@ THOROUGH_BUDGET_S = 900
 RULE = ("pairs of osu charts over a shared pool of 1-6 times (integers and dyadic fractions, both signs): source with 0-7 "
         "sounding notes per time (hitsound bits 0-15 and beyond, 1-4 volumes incl. 0 and negative, named samples with "
         "repeats and empty names, sample/addition/custom sets), target with 0-5 notes per time (own sounds, own event "
-        "samples), hits and holds on both sides, occasionally > 16 rows per side (unstable sort ties), rarely a ';' in a "
-        "name or a NaN hold length (known findings); non-trivial = some source sound shares its time with a target note "
-        "or overflows into the event samples")
+        "samples), hits and holds on both sides (hold lengths positive, zero and negative), occasionally > 16 rows per side "
+        "(unstable sort ties), note lists built by one constructor call or by appending item after item, rarely a ';' in a "
+        "name (known finding D19c) or a hold without a length (outside the property's domain: correspondence only); "
+        "non-trivial = some source sound shares its time with a target note or overflows into the event samples")
 ASSUMPTIONS = [
     "pandas sort_values('offset') on the note frames depends only on the offset column (the permutation is re-derived "
     "from it and handed to the model); groupby sorts distinct keys ascending and keeps row order inside a group",
     "'neither input is modified' is observed (frames compared before/after), not proved: the Lean model is a pure function",
+    "a hold whose length is NaN is not a chart the property quantifies over (\"hits and holds on either side\"): on such a "
+    "target the clause notes_preserved is not evaluated (the model mirrors what the code does there and is still compared)",
     "the `else` branch of the tail (`'length' not in df`) is unreachable through OsuMap (the hold frame always has the column) and is not modelled",
 ]
 
@@ -61,7 +64,8 @@ def note(t, c, hs=0, ss=0, ad=0, cs=0, v=0, f="", l=False):
 
 
 def gen_len(rng):
-    return rng.choice([Fr(0), Fr(1), Fr(50), Fr(100), Fr(250), Fr(1, 2), Fr(333, 8), Fr(10000)])
+    # zero and negative lengths are legal hold objects (head == tail, tail before head) and must keep their kind
+    return rng.choice([Fr(0), Fr(0), Fr(1), Fr(50), Fr(100), Fr(250), Fr(1, 2), Fr(333, 8), Fr(10000), Fr(-20), Fr(-1, 2), Fr(-1)])
 
 
 def gen_sound(rng, names, vols, rich):
@@ -137,7 +141,11 @@ def gen(rng, tier, i):
         rng.choice(tgt_l)["l"] = None
     for l in (src_h, src_l, tgt_h, tgt_l):
         rng.shuffle(l)
-    return dict(claim="copy", src=dict(hits=src_h, holds=src_l, samples=[]), tgt=dict(hits=tgt_h, holds=tgt_l, samples=tgt_s))
+    case = dict(claim="copy", src=dict(hits=src_h, holds=src_l, samples=[]), tgt=dict(hits=tgt_h, holds=tgt_l, samples=tgt_s))
+    if not big and rng.random() < 0.3:
+        # note lists built by appending one item at a time (`lst = lst.append(OsuHit(...))`), source / target
+        case["_build"] = rng.choice(["aa", "ac", "ca"])
+    return case
 
 
 def corpus():
@@ -173,6 +181,18 @@ def corpus():
     c.append(dict(claim="copy",
                   src=dict(hits=[note(i % 2, i % 4, f=f"f{i}", v=1) for i in range(40)], holds=[], samples=[]),
                   tgt=dict(hits=[note(i % 2, i % 7, v=i) for i in range(24)], holds=[note(0, 3, l=9)], samples=[])))
+    # zero-length and negative-length target holds keep their kind (with and without hits beside them)
+    c.append(dict(claim="copy",
+                  src=dict(hits=[note(0, 0, hs=2, v=20), note(100, 1, f="a.wav", v=20)], holds=[], samples=[]),
+                  tgt=dict(hits=[note(0, 1), note(100, 2)],
+                           holds=[note(0, 0, l=0), note(100, 0, l=0), note(200, 0, l=-20), note(300, 3, l=Fr(-1, 2))], samples=[])))
+    c.append(dict(claim="copy", src=dict(hits=[], holds=[note(0, 0, hs=8, l=0)], samples=[]),
+                  tgt=dict(hits=[], holds=[note(0, 0, l=0), note(100, 0, l=0)], samples=[])))
+    # the same chart built item by item (object-dtype columns before D40: every clap/finish/whistle was lost)
+    c.append(dict(claim="copy", _build="aa",
+                  src=dict(hits=[note(0, 0, hs=2, v=20), note(0, 1, hs=12, v=20, f="a.wav")],
+                           holds=[note(0, 3, hs=14, v=30, f="c.wav", l=100)], samples=[]),
+                  tgt=dict(hits=[note(0, c) for c in range(3)], holds=[note(0, 3, l=-20), note(0, 2, l=0)], samples=[])))
     return c
 
 
@@ -186,7 +206,7 @@ def _has_nan_hold(case):
 
 def valid(case):
     try:
-        if case.get("claim") != "copy":
+        if case.get("claim") != "copy" or case.get("_build", "cc") not in ("cc", "aa", "ac", "ca"):
             return False
         for side in ("src", "tgt"):
             ch = case[side]
@@ -221,13 +241,22 @@ def valid(case):
 
 # ------------------------------------------------------------------------------------------ adapters
 
-def build_map(ch):
+def _by_append(cls, items):
+    lst = cls([])
+    for it in items:
+        lst = lst.append(it)
+    return lst
+
+
+def build_map(ch, by_append=False):
     OsuMap, OsuHitList, OsuHoldList, OsuSampleList, OsuHit, OsuHold, OsuSample, _ = _imports()
     m = OsuMap()
-    m.hits = OsuHitList([OsuHit(offset=float(F(n["t"])), column=n["c"], hitsound_set=n["hs"], sample_set=n["ss"],
+    mk_hits = (lambda items: _by_append(OsuHitList, items)) if by_append else OsuHitList
+    mk_holds = (lambda items: _by_append(OsuHoldList, items)) if by_append else OsuHoldList
+    m.hits = mk_hits([OsuHit(offset=float(F(n["t"])), column=n["c"], hitsound_set=n["hs"], sample_set=n["ss"],
                                 addition_set=n["ad"], custom_set=n["cs"], volume=n["v"], hitsound_file=n["f"])
                          for n in ch["hits"]])
-    m.holds = OsuHoldList([OsuHold(offset=float(F(n["t"])), column=n["c"],
+    m.holds = mk_holds([OsuHold(offset=float(F(n["t"])), column=n["c"],
                                    length=float("nan") if n["l"] is None else float(F(n["l"])),
                                    hitsound_set=n["hs"], sample_set=n["ss"], addition_set=n["ad"], custom_set=n["cs"],
                                    volume=n["v"], hitsound_file=n["f"]) for n in ch["holds"]])
@@ -350,7 +379,10 @@ def run(case, drv):
     tags = []
     jsrc, jtgt = j_chart(src_c), j_chart(tgt_c)
     # --- implementation
-    src_m, tgt_m = build_map(src_c), build_map(tgt_c)
+    bmode = case.get("_build", "cc")
+    src_m, tgt_m = build_map(src_c, bmode[0] == "a"), build_map(tgt_c, bmode[1] == "a")
+    if bmode != "cc":
+        tags.append("built-by-append")
     snap_s, snap_t = snapshot(src_m), snapshot(tgt_m)
     impl_err = None
     try:
@@ -375,6 +407,10 @@ def run(case, drv):
     # --- specification on the implementation's output
     spec = drv.call("c18.spec", src=jsrc, tgt=jtgt, out=impl)["ok"]
     failed = sorted(k for k, v in spec.items() if not v)
+    if not dom["holds_have_length"] and "notes_preserved" in failed:
+        # a hold without a length is outside the charts the property speaks about: the clause is silent there
+        failed.remove("notes_preserved")
+        tags.append("notes-clause-silent")
     if not unmodified:
         failed.append("inputs_unmodified")
     ok = not failed
@@ -387,8 +423,6 @@ def run(case, drv):
     if not ok:
         if (not dom["no_sep"]) and set(failed) <= {"no_invention", "samples_conserved"}:
             kf = "D19c"
-        elif (not dom["holds_have_length"]) and failed == ["notes_preserved"]:
-            kf = "D19d"
     # --- bookkeeping
     n_src = len(src_c["hits"]) + len(src_c["holds"])
     n_tgt = len(tgt_c["hits"]) + len(tgt_c["holds"])
